@@ -113,6 +113,8 @@ type Channel struct {
 	Q              *util.Queue
 	Errs           chan error
 	readLoopExited atomic.Bool
+	// readLoopDone is closed by the read loop when it exits, Close waits (a little) for it.
+	readLoopDone chan struct{}
 
 	ChannelLog io.Writer
 }
@@ -138,7 +140,9 @@ func (c *Channel) Open() (reterr error) {
 
 	c.l.Debug("starting channel read loop")
 
-	go c.read()
+	c.readLoopDone = make(chan struct{})
+
+	go c.read(c.readLoopDone)
 
 	if c.AuthBypass {
 		c.l.Debug("auth bypass is enabled, skipping in channel auth check")
@@ -195,26 +199,16 @@ func (c *Channel) Close() error {
 	// note that Errs is deliberately *not* closed: the read loop may be about to (or blocked trying
 	// to) hand over a transport error, and a send on a closed channel panics in that goroutine.
 
-	ch := make(chan struct{})
+	util.Yield("chan.close.signal")
 
-	util.Yield("chan.close.flag")
-
-	if !c.readLoopExited.Load() {
-		go func() {
-			defer close(ch)
-
-			util.Yield("chan.close.sender")
-
-			c.done <- struct{}{}
-		}()
-	} else {
-		close(ch)
-	}
+	// closing (rather than sending on) done means the signal is never lost and needs no goroutine
+	// that would be stuck forever if the read loop exits on its own (EOF) at the same moment.
+	close(c.done)
 
 	util.Yield("chan.close.select")
 
 	select {
-	case <-ch:
+	case <-c.readLoopDone:
 		c.l.Debug("closing underlying transport...")
 
 		util.Yield("chan.close.nice")
